@@ -40,7 +40,8 @@ EXPLANATION = (
 )
 NONTRIVIAL_RULE = "started at least one service and processed a completion or a stimulus"
 BOUNDS = {
-    "invoke_schedule": "machine IM; completion time c in [0,40] ms, outcome in {return, raise}, slow action a in [0,40] ms, stimuli at t1<=t2 in [0,60] ms with kinds fixed per item out of {LEAVE,RE,NOP,BACK,STOP}; observation window 150 ms; both engines (sync: the service completes at once)",
+    "invoke_schedule": "machine IM (async engine also with the service registered as an object with async __call__, a plain def returning the coroutine, a functools.partial: 'form' in the label); completion time c in [0,40] ms, outcome in {return, raise}, slow action a in [0,40] ms, stimuli at t1<=t2 in [0,60] ms with kinds fixed per item out of {LEAVE,RE,NOP,BACK,STOP}; observation window 150 ms; both engines (sync: the service completes at once)",
+    "multi_invoke": "machine MI: parallel state P (invoke a) with regions R1 {x (invokes b with id and handlers leaving to y, and c without id), y} and R2 {u (invoke b2, same source as b)}; completion times c2 (b), c2+4 (c) in [0,30] ms, outcome f2 of b symbolic; completion time c1 of a and b2 and outcome f1 of a, b2, c fixed per item (6 ms / success; thorough also 15 ms / failure); slow action a = 8 ms, two stimuli at t1 in [0,40] ms (symbolic) and t1 + gap (gap fixed per item) with kinds fixed per item out of {LEAVE,RE,XRE,NOP,XBACK,STOP}; window 120 ms; both engines",
     "no_handler": "machine IM2 (no onError); outcome in {return, raise}; one later event; both engines",
     "child_machine": "machine IM3 invoking a child machine that finishes on its k-th TICK (k in {0,1,2}) or never; stimulus LEAVE/RE/STOP at a symbolic step; both engines (sync: blocking spawn)",
 }
@@ -82,6 +83,32 @@ async def _svc_async(interp: Any, ctx: Any, event: Any) -> Any:
     if CTL["fail"]:
         raise SvcError(f"boom-{n}")
     return f"result-{n}"
+
+
+def _svc_form(form: int) -> Any:
+    """The same asynchronous service in the other callable shapes a user can register (async engine): 1 an object whose
+    __call__ is a coroutine function, 2 a plain function returning the coroutine (what a decorator written with a plain
+    def produces), 3 a functools.partial of the coroutine function.  The statement is about services, not about
+    'async def' functions: each of them must be started once, awaited, and drive onDone / onError with its outcome."""
+    import functools
+
+    if form == 1:
+        class _Obj:
+            async def __call__(self, interp: Any, ctx: Any, event: Any) -> Any:
+                return await _svc_async(interp, ctx, event)
+
+        return _Obj()
+    if form == 2:
+        def wrapper(interp: Any, ctx: Any, event: Any) -> Any:
+            return _svc_async(interp, ctx, event)
+
+        return wrapper
+    if form == 3:
+        async def with_tag(tag: str, interp: Any, ctx: Any, event: Any) -> Any:
+            return await _svc_async(interp, ctx, event)
+
+        return functools.partial(with_tag, "t")
+    return _svc_async
 
 
 def _svc_sync(interp: Any, ctx: Any, event: Any) -> Any:
@@ -145,6 +172,8 @@ def _machine(key: str) -> Any:
         eng = int(key[-1])
         acts = {n: _act(n) for n in ("W.en", "W.ex", "I.en", "D.en", "E.en", "done", "err", "c.en", "cf.en", "P.done", "P.err")}
         acts["slow"] = _slow_sync if eng == 0 else _slow_async
+        if key.startswith("IM4"):
+            return _mi_machine(int(key[-1]))
         if key.startswith("IM3"):
             child = create_machine({
                 "id": "kid", "initial": "c", "context": {"ticks": 0},
@@ -164,7 +193,10 @@ def _machine(key: str) -> Any:
             m = create_machine(cfg, logic=make_logic(actions=acts, services={"kid": child}))
         else:
             cfg = im_config(on_error=not key.startswith("IM2"))
-            m = create_machine(cfg, logic=make_logic(actions=acts, services={"svc": _svc_sync if eng == 0 else _svc_async}))
+            svc: Any = _svc_sync if eng == 0 else _svc_async
+            if key.startswith("IMf"):
+                svc = _svc_form(int(key[3]))
+            m = create_machine(cfg, logic=make_logic(actions=acts, services={"svc": svc}))
         env.pin_hashes(m)
         _M[key] = m
     return m
@@ -182,7 +214,7 @@ def set_params(p: Dict[str, Any]) -> None:
     global P
     P = p
     vthread.install()
-    for k in ("IM0", "IM1", "IM20", "IM21", "IM30", "IM31"):
+    for k in ("IM0", "IM1", "IM20", "IM21", "IM30", "IM31", "IM40", "IM41", "IMf1_1", "IMf2_1", "IMf3_1"):
         _machine(k)
 
 
@@ -200,6 +232,17 @@ def _live_native(lp: Any) -> int:
         if not t.done() and ("_invoke_wrapper" in nm or "_invoke_service_task" in nm or "_spawn_and_manage_actor" in nm or "_svc_async" in nm):
             n += 1
     return n
+
+
+def _allowed(it: Any) -> int:
+    """Number of service tasks the configuration justifies at a census point."""
+    if it.status != "running":
+        return 0
+    owners = CTL.get("owners")
+    if owners is None:
+        return 1 if any(n.key == "W" for n in it._active_state_nodes) else 0
+    active = {n.key for n in it._active_state_nodes}
+    return sum(1 for k, o in owners.items() if o in active)
 
 
 def _run(eng: int, mkey: str, stim: List[Tuple[Any, str]], horizon: Any) -> Any:
@@ -249,13 +292,11 @@ def _run(eng: int, mkey: str, stim: List[Tuple[Any, str]], horizon: Any) -> Any:
                 await it.send(kind)
         if box["stopped"] is None:
             await it._event_queue.join()
-        w_active = any(n.key == "W" for n in it._active_state_nodes) and it.status == "running"
-        CTL["census"].append((lp.time(), _live_service_tasks(lp), 1 if w_active else 0))
+        CTL["census"].append((lp.time(), _live_service_tasks(lp), _allowed(it)))
         dt = horizon / 1000.0 - lp.time()
         if dt > 0:
             await asyncio.sleep(dt)
-        w_active = any(n.key == "W" for n in it._active_state_nodes) and it.status == "running"
-        CTL["census"].append((lp.time(), _live_service_tasks(lp), 1 if w_active else 0))
+        CTL["census"].append((lp.time(), _live_service_tasks(lp), _allowed(it)))
         if box["stopped"] is None:
             await it.stop()
 
@@ -330,6 +371,200 @@ def _check(log: List[Any], fail: Any, stopped: Any) -> Optional[str]:
     return None
 
 
+# ---------------------------------------------------------------------------
+# several invocations at once: a list of invokes on one state, invokes in two
+# parallel regions and on their parallel parent, one service source shared by
+# two states, an id-less invoke, a handler that leaves its state while a sibling
+# invocation of the same state is still running
+# ---------------------------------------------------------------------------
+
+OWNERS = {"a": "P", "b": "x", "c": "x", "b2": "u"}
+MKINDS = ["LEAVE", "RE", "XRE", "NOP", "XBACK", "STOP"]
+
+
+def _mk_svc(eng: int, src: str) -> Any:
+    def key_of(event: Any) -> str:
+        return str((event.payload.get("input") or {}).get("k"))
+
+    def times(k: str) -> Any:
+        return CTL["cs"][k]
+
+    if eng == 0:
+        def svc(interp: Any, ctx: Any, event: Any) -> Any:
+            k = key_of(event)
+            CTL["starts"] += 1
+            n = CTL["starts"]
+            _log("svc.start", (k, n, src, dict(event.payload.get("input") or {})))
+            _log("svc.finish", (k, n))
+            if CTL["fails"][k]:
+                raise SvcError(f"boom-{k}-{n}")
+            return f"result-{k}-{n}"
+
+        return svc
+
+    async def asvc(interp: Any, ctx: Any, event: Any) -> Any:
+        import asyncio
+
+        k = key_of(event)
+        CTL["starts"] += 1
+        n = CTL["starts"]
+        _log("svc.start", (k, n, src, dict(event.payload.get("input") or {})))
+        try:
+            await asyncio.sleep(times(k) / 1000.0)
+        except asyncio.CancelledError:
+            _log("svc.cancelled", (k, n))
+            raise
+        _log("svc.finish", (k, n))
+        if CTL["fails"][k]:
+            raise SvcError(f"boom-{k}-{n}")
+        return f"result-{k}-{n}"
+
+    return asvc
+
+
+def mi_config() -> Dict[str, Any]:
+    def inv(src: str, k: str, iid: Optional[str], target: Optional[str]) -> Dict[str, Any]:
+        d: Dict[str, Any] = {"src": src, "input": {"k": k}, "onDone": {"actions": [f"{k}.done"]}, "onError": {"actions": [f"{k}.err"]}}
+        if iid:
+            d["id"] = iid
+        if target:
+            d["onDone"]["target"] = target
+            d["onError"]["target"] = target
+        return d
+
+    return {
+        "id": "m", "initial": "P",
+        "states": {
+            "P": {"type": "parallel", "entry": ["P.en"], "exit": ["P.ex"], "invoke": [inv("svcA", "a", "a", None)],
+                  "on": {"LEAVE": {"target": "I", "actions": ["slow"]}, "RE": {"target": "P", "reenter": True}, "NOP": {"actions": ["slow"]}},
+                  "states": {
+                      "R1": {"initial": "x", "states": {
+                          "x": {"entry": ["x.en"], "exit": ["x.ex"],
+                                "invoke": [inv("svcB", "b", "b", "y"), inv("svcC", "c", None, None)],
+                                "on": {"XRE": {"target": "x", "reenter": True}}},
+                          "y": {"on": {"XBACK": "x"}}}},
+                      "R2": {"initial": "u", "states": {
+                          "u": {"entry": ["u.en"], "exit": ["u.ex"], "invoke": inv("svcB", "b2", "b2", None)}}},
+                  }},
+            "I": {"on": {"BACK": "P", "RE": "P"}},
+        },
+    }
+
+
+def _mi_machine(eng: int) -> Any:
+    key = f"IM4{eng}"
+    m = _M.get(key)
+    if m is None:
+        from xstate_statemachine import create_machine
+
+        env.install()
+        names = ["P.en", "P.ex", "x.en", "x.ex", "u.en", "u.ex"] + [f"{k}.{h}" for k in OWNERS for h in ("done", "err")]
+        acts = {n: _act(n) for n in names}
+        acts["slow"] = _slow_sync if eng == 0 else _slow_async
+        m = create_machine(mi_config(), logic=make_logic(actions=acts, services={s: _mk_svc(eng, s) for s in ("svcA", "svcB", "svcC")}))
+        env.pin_hashes(m)
+        _M[key] = m
+    return m
+
+
+def _check_multi(log: List[Any], stopped: Any) -> Optional[str]:
+    """Sequential reading of the log: per owner state the list of activations; every service of the owner starts
+    exactly once per activation with its declared input and source; a handler action carries the outcome of THE start
+    that belongs to the owner's current activation, at most once; results of exited activations drive nothing; a
+    service that finished while its owner stays active to the end has driven its handler."""
+    acts: Dict[str, List[Dict[str, Any]]] = {o: [] for o in set(OWNERS.values())}
+    cur: Dict[str, Optional[Dict[str, Any]]] = {o: None for o in acts}
+    src_of = {"a": "svcA", "b": "svcB", "c": "svcC", "b2": "svcB"}
+    prev_act: Optional[Tuple[Any, Any]] = None
+    for (t, kind, what) in log:
+        if stopped is not None and t > stopped and kind in ("act", "svc.start"):
+            return f"{kind} {what} at {t} after stop() returned at {stopped}"
+        if kind == "act" and what[0].endswith(".en") and what[0][:-3] in acts:
+            o = what[0][:-3]
+            if cur[o] is not None:
+                return f"{o} entered while already active"
+            cur[o] = {"enter": t, "exit": None, "starts": {}, "handled": {}}
+            acts[o].append(cur[o])
+        elif kind == "act" and what[0].endswith(".ex") and what[0][:-3] in acts:
+            o = what[0][:-3]
+            if cur[o] is None:
+                return f"{o} exited while not active"
+            cur[o]["exit"] = t       # type: ignore[index]
+            cur[o] = None
+        elif kind == "svc.start":
+            k, n, src, inp = what
+            if k not in OWNERS:
+                return f"a service started with an undeclared input {inp!r}"
+            o = OWNERS[k]
+            if cur[o] is None:
+                return f"service {k} start #{n} at {t} while {o} is not active"
+            if inp != {"k": k} or src != src_of[k]:
+                return f"service {k} start #{n}: source {src} input {inp!r}, declared {src_of[k]} / {{'k': {k!r}}}"
+            cur[o]["starts"].setdefault(k, []).append(n)       # type: ignore[index]
+        elif kind == "act" and "." in what[0] and what[0].split(".")[1] in ("done", "err") and what[0].split(".")[0] in OWNERS:
+            k, h = what[0].split(".")
+            o = OWNERS[k]
+            a = cur[o]
+            if a is None and k == "b" and prev_act is not None and prev_act[0] == "x.ex" and prev_act[1] == t:
+                a = acts[o][-1]                 # b's handlers leave x: x.ex is the action logged just before them
+            if a is None:
+                return f"handler {what[0]} ran at {t} while {o} was not active (result of an exited activation?)"
+            ns = a["starts"].get(k, [])
+            data = what[1]
+            ok_data = [f"boom-{k}-{n}" if h == "err" else f"result-{k}-{n}" for n in ns]
+            if data not in ok_data:
+                return f"handler {what[0]} at {t} carried {data!r}; the current activation of {o} started {k} as #{ns} (a result of another activation or service?)"
+            if (h == "err") != bool(CTL["fails"][k]):
+                return f"handler {what[0]} ran but the service {'raised' if CTL['fails'][k] else 'returned'}"
+            a["handled"][k] = a["handled"].get(k, 0) + 1
+            if a["handled"][k] > 1:
+                return f"activation of {o}: completion of {k} processed {a['handled'][k]} times"
+        if kind == "act":
+            prev_act = (what[0], t)
+    finishes = {(w[0], w[1]): t for (t, k, w) in log if k == "svc.finish"}
+    for o, lst in acts.items():
+        for i, a in enumerate(lst):
+            instant = (a["exit"] is not None and a["exit"] == a["enter"]) or (a["exit"] is None and stopped is not None and stopped == a["enter"])
+            for k in (kk for kk, oo in OWNERS.items() if oo == o):
+                ns = a["starts"].get(k, [])
+                if len(ns) > 1 or (len(ns) == 0 and not instant):
+                    return f"activation #{i} of {o} started service {k} {len(ns)} times"
+                if ns and (k, ns[0]) in finishes and a["exit"] is None and stopped is None and not a["handled"].get(k):
+                    return f"activation #{i} of {o}: service {k} #{ns[0]} finished at {finishes[(k, ns[0])]} while {o} stayed active, but no handler ran"
+    for (tc, live, allowed) in CTL.get("census", []):
+        if live > allowed:
+            return f"at {tc * 1000:.3f} ms {live} service task(s) alive, the configuration justifies at most {allowed}"
+    return None
+
+
+def multi_invoke(c2: int, t1: int, f2: bool) -> bool:
+    """
+    pre: 0 <= c2 <= 30
+    pre: 0 <= t1 <= 40
+    pre: gate('multi_invoke', c2=c2, t1=t1, f2=f2)
+    post: _
+    """
+    a = P.get("a", 8)               # duration of the slow action and distance of the second stimulus: fixed per item (the
+    t2 = t1 + P.get("gap", 3)       # async path tree did not exhaust with five symbolic instants on this machine)
+    eng = P["eng"]
+    c1 = P.get("c1", 6)        # completion time of a and b2 and outcome of a, b2, c: fixed per item (the async path tree
+    f1 = P.get("f1", False)    # did not exhaust with seven symbolic quantities)
+    stim = [(t1, P["k1"])] + ([(t2, P["k2"])] if P["k1"] != "STOP" else [])
+    # a and b2 complete after c1 ms, b after c2 ms, c (the id-less second invoke of x) 4 ms after b
+    CTL.update({"cs": {"a": c1, "b2": c1, "b": c2, "c": c2 + 4}, "fails": {"a": f1, "b2": f1, "b": f2, "c": f1},
+                "a": a, "log": [], "starts": 0, "owners": OWNERS})
+    try:
+        _mi_machine(eng)
+        it, stopped = _run(eng, f"IM4{eng}", stim, 120)
+        why = _check_multi(CTL["log"], stopped)
+    finally:
+        CTL["owners"] = None
+    if why:
+        _note(f"{'sync' if eng == 0 else 'async'} c1={c1} c2={c2} a={a} f1={bool(f1)} f2={bool(f2)} stimuli={[(int(t), k) for t, k in stim]}: {why}; log="
+              + str([(round(float(t) * 1000, 3), k, w) for t, k, w in CTL['log']]))
+    return verdict(why is None)
+
+
 def invoke_schedule(c: int, a: int, t1: int, t2: int, fail: bool) -> bool:
     """
     pre: 0 <= c <= 40 and 0 <= a <= 40
@@ -340,7 +575,8 @@ def invoke_schedule(c: int, a: int, t1: int, t2: int, fail: bool) -> bool:
     eng = P["eng"]
     stim = [(t1, P["k1"])] + ([(t2, P["k2"])] if P["k1"] != "STOP" else [])
     CTL.update({"c": c, "a": a, "fail": fail, "log": [], "starts": 0, "_last_closed": None})
-    it, stopped = _run(eng, f"IM{eng}", stim, 150)
+    form = P.get("form", 0)
+    it, stopped = _run(eng, f"IMf{form}_{eng}" if form else f"IM{eng}", stim, 150)
     why = _check(CTL["log"], fail, stopped)
     if why:
         _note(f"{'sync' if eng == 0 else 'async'} c={c} a={a} fail={bool(fail)} stimuli={stim}: {why}; log="
@@ -467,7 +703,7 @@ def child_machine(eng: int, need: int, ticks: int, what: int) -> bool:
     return verdict(box["ok"])
 
 
-OBLIGATIONS = {"invoke_schedule": invoke_schedule, "no_handler": no_handler, "child_machine": child_machine}
+OBLIGATIONS = {"invoke_schedule": invoke_schedule, "no_handler": no_handler, "child_machine": child_machine, "multi_invoke": multi_invoke}
 PROBES = {"invoke_schedule": [{"c": 10, "a": 30, "t1": 5, "t2": 6}, {"c": 1, "a": 0, "t1": 1, "t2": 1}, {"c": 5, "a": 10, "t1": 0, "t2": 2, "fail": True}]}
 
 
@@ -481,6 +717,23 @@ def items(tier: str, seed: int) -> List[Dict[str, Any]]:
                     continue
                 out.append({"ob": "invoke_schedule", "params": {"eng": eng, "k1": k1, "k2": k2}, "timeout": 280 if quick else 1500,
                             "path_timeout": 40, "label": f"invoke_schedule[{'sync' if eng == 0 else 'async'},{k1},{k2}]"})
+    # the asynchronous service in three further callable shapes (object with async __call__, plain def returning the
+    # coroutine, functools.partial)
+    for form in (1, 2, 3):
+        for (k1, k2) in ([("NOP", "RE")] if quick else [("NOP", "RE"), ("LEAVE", "BACK"), ("RE", "STOP")]):
+            out.append({"ob": "invoke_schedule", "params": {"eng": 1, "k1": k1, "k2": k2, "form": form}, "timeout": 280 if quick else 1500,
+                        "path_timeout": 40, "label": f"invoke_schedule[async,{k1},{k2},form={form}]"})
+    mq = [("LEAVE", "RE"), ("RE", "XRE"), ("XRE", "XRE"), ("NOP", "XRE"), ("NOP", "LEAVE"), ("XRE", "STOP"), ("XBACK", "XBACK"), ("NOP", "RE")]
+    for eng in (0, 1):
+        for k1 in MKINDS:
+            for k2 in (MKINDS if k1 != "STOP" else MKINDS[:1]):
+                if quick and ((k1, k2) not in mq or (eng == 0 and (k1, k2) not in mq[:3])):
+                    continue
+                for (c1, f1) in ([(6, False)] if quick or eng == 0 else [(6, False), (15, True)]):
+                    for gap in ((3,) if quick or eng == 0 else (0, 3, 11)):
+                        out.append({"ob": "multi_invoke", "params": {"eng": eng, "k1": k1, "k2": k2, "c1": c1, "f1": f1, "gap": gap, "a": 8},
+                                    "timeout": 300 if quick else 900, "path_timeout": 60,
+                                    "label": f"multi_invoke[{'sync' if eng == 0 else 'async'},{k1},{k2},c1={c1},f1={int(f1)},gap={gap}]"})
     out.append({"ob": "no_handler", "params": {}, "timeout": 120, "label": "no_handler"})
     out.append({"ob": "child_machine", "params": {}, "timeout": 280, "label": "child_machine"})
     return out
